@@ -131,6 +131,7 @@ def check(ctx):
     ctx.rule("C10-R4", "arm order: no return precedes a dictionary arm unless a type test on the same operand excludes dictionaries")
     ctx.rule("C10-R5", "a key reaches the dictionary lookup/update as the operand (or its constant element), never reassigned or converted on the way")
     ctx.rule("C10-R7", "value independence of the arm choice: the guards of the in-situ dictionary arms test only the kind and length of the operands, never the key or payload")
+    ctx.rule("C10-R8", "failure atomicity of the in-situ update: in each dictionary arm the dictionary is changed by one statement, and no element of the other operand is read after that statement (a Join that raises leaves the dictionary as it was)")
     ctx.rule("C10-R6", "Each over a dictionary iterates items() once and applies the verb once per pair; Size is len()")
 
     c04.check_dict_literal(ctx, repo, "C10-R1")
@@ -154,6 +155,26 @@ def check(ctx):
                     muts.append(x)
         ctx.ob("C10-R2", f.fq, f"the dictionary operand `{p}` is updated in place (store/del on {p} itself)", len(muts) == 1, node=ifn,
                construct=f"in-situ update of {p}", msg=f"the dictionary arm no longer updates `{p}` in place: aliases of the dictionary (other variables, function parameters) do not see the update")
+        # R8: the update is one step - everything that can fail on the other operand is read before the dictionary is first changed
+        from ..model import enclosing_stmt
+        mut_stmts = []
+        for n in ifn.body:
+            for x in walk_local(n):
+                is_mut = (isinstance(x, ast.Subscript) and isinstance(x.ctx, (ast.Store, ast.Del)) and isinstance(x.value, ast.Name) and x.value.id == p) or \
+                    (isinstance(x, ast.Call) and isinstance(x.func, ast.Attribute) and isinstance(x.func.value, ast.Name) and x.func.value.id == p and
+                     x.func.attr in ("pop", "popitem", "clear", "update", "setdefault", "__setitem__", "__delitem__"))
+                if is_mut:
+                    st_ = enclosing_stmt(x)
+                    if st_ not in mut_stmts:
+                        mut_stmts.append(st_)
+        if mut_stmts:
+            first = min(mut_stmts, key=pos)
+            late = [x for n in ifn.body for x in walk_local(n) if isinstance(x, ast.Subscript) and isinstance(x.ctx, ast.Load) and isinstance(x.value, ast.Name) and
+                    x.value.id in set(f.params()) - {p} and pos(enclosing_stmt(x)) > pos(first)]
+            ctx.ob("C10-R8", f.fq, f"the dictionary `{p}` is changed in ONE statement and nothing of the other operand is read after it", len(mut_stmts) == 1 and not late,
+                   node=(late[0] if late else first), construct=f"dictionary {p} changed before the tuple has been read completely",
+                   msg=f"the arm changes `{p}` in {len(mut_stmts)} statement(s) and reads `{src(late[0]) if late else ''}` of the other operand afterwards: a malformed tuple (one element) raises IndexError "
+                       "after the old entry is already gone - a rejected Join has changed the dictionary")
         # the arm is chosen by the kind and shape of the operands only, never by what the key or the payload is
         params = set(f.params())
         peek = []
@@ -304,6 +325,7 @@ MUTATION_SCOPE = ['dyads:eval_dyad_join',
                   'parser:list_to_dict']
 
 SEEDS = [
+    Seed("join-pops-before-reading-payload", "fault", "dyads", "    if isinstance(a,dict):\n        a[b[0]] = b[1]", "    if isinstance(a,dict):\n        a.pop(b[0], None)\n        a[b[0]] = b[1]", rule="C10-R8"),
     Seed("left-join-skips-dict-payload", "fault", "dyads", "    if isinstance(b,dict) and is_list(a) and len(a) == 2:", "    if isinstance(b,dict) and is_list(a) and len(a) == 2 and not any(isinstance(q,dict) for q in a):", rule="C10-R7"),
     Seed("left-join-string-keys-only", "fault", "dyads", "    if isinstance(b,dict) and is_list(a) and len(a) == 2:", "    if isinstance(b,dict) and is_list(a) and len(a) == 2 and not is_list(a[0]):", rule="C10-R7"),
     Seed("literal-not-copied", "fault", "parser", "copy_lambda = KGLambda(lambda x: copy.deepcopy(x))", "copy_lambda = KGLambda(lambda x: x)", rule="C10-R1"),
